@@ -40,3 +40,11 @@ def lemma_quotient_link(mins, s, r, idx, pshift):
 def lemma_union_link(s, r, idx):
     # union shifts are all zero, hence so are the reverse (complement) shifts
     return
+
+
+def lemma_flatten_roundtrip(start, ends):
+    # the two one-line helpers of RecomputingDict, composed: _unflatten(_flatten(key)) == key
+    from comb_spec_searcher.rule_db.forget import RecomputingDict
+    flat = RecomputingDict._flatten((start, ends))
+    back = RecomputingDict._unflatten(flat)
+    return back[0] == start and back[1] == ends and len(flat) == len(ends) + 1
